@@ -87,10 +87,35 @@ def run(chk):
                 chk.nontriv(c)
             # monitor: the empty route and routes without a leading '/' are never served
             qs = c.split("|", 1)[1].split()
+            # the property restated on the registrations of this program: a request is delivered to service
+            # N only if N's pattern matches its route (exact: equal; catch-all 'p/*x': extension of 'p/'),
+            # and a route equal to an exact registered path is delivered to that path's service
+            pat = {}
+            for op in c.split("|", 1)[0].split()[1:]:
+                f = op.split(":")
+                if f[0] == "r":
+                    pat.setdefault(f[2], []).append(unhx(f[1]))
+                elif f[0].startswith("S"):
+                    pat.setdefault(f[1], []).append(b"/" + NAMES[int(f[0][1:])].encode() + b"/*rest")
+            def matches(pt, route):
+                if b":" in pt:
+                    return None
+                if b"*" in pt:
+                    pre = pt.split(b"*")[0]
+                    return route.startswith(pre)     # the tail may be empty (matchit 0.5)
+                return route == pt
             for q, o in zip(qs, outs):
                 s = unhx(q)
                 if (s == b"" or not s.startswith(b"/")) and o != "404":
                     chk.monitor_fail("a route string not starting with '/' was served: %r -> %s" % (s[:40], o), dict(case=c[:600], impl=a[:300]))
+                if o.startswith("s") and o != "404":
+                    sid = o[1:].split(";")[0]
+                    if sid in pat and all(matches(pt, s) is False for pt in pat[sid]):
+                        chk.monitor_fail("route %r was delivered to the service registered at %r, which it does not match" % (s[:60], [pt[:60] for pt in pat[sid]]), dict(case=c, impl=a[:600]))
+                if o == "404":
+                    exact = [k for k, pts in pat.items() for pt in pts if b"*" not in pt and b":" not in pt and pt == s]
+                    if exact:
+                        chk.monitor_fail("route %r equals a registered exact path but was answered NotFound" % s[:60], dict(case=c, impl=a[:600]))
         if b == "unsupported":
             chk.count("outside-model")
             continue
